@@ -53,4 +53,39 @@ mod verif_c15_loader_wit {
         } } }
         let _ = std::fs::remove_dir_all(&dir);
     }
+
+    /// C15 ("the forward and reverse adjacency views always describe the same edge set", "every listed edge ... the outgoing edges of a vertex are precisely the
+    /// listed edges that leave it and the incoming edges precisely those that enter it"): an edge list that names a vertex beyond the vertex list (a truncated
+    /// vertex file, or a configured vertex count that is too small) does not describe a network.  Either the load is refused, or -- if it succeeds -- every listed
+    /// edge must be in the out-list of its source AND in the in-list of its destination.
+    #[test]
+    fn c15_wit_edge_naming_a_vertex_beyond_the_vertex_list() {
+        // vertices 0..=3; edge 2 enters vertex 7, edge 3 leaves vertex 9
+        let edges: Vec<(usize, usize)> = vec![(0, 1), (1, 2), (2, 7), (9, 3), (3, 0)];
+        let mut e_txt = String::from("edge_id,src_vertex_id,dst_vertex_id,distance");
+        for (i, (s, d)) in edges.iter().enumerate() { e_txt.push_str(&format!("\n{},{},{},{}", i, s, d, 10.0)); }
+        let mut v_txt = String::from("vertex_id,x,y");
+        for v in 0..4 { v_txt.push_str(&format!("\n{},{},{}", v, -105.0 + v as f64 * 0.01, 39.0)); }
+        let dir = std::env::temp_dir().join(format!("verif_c15b_{}", std::process::id()));
+        std::fs::create_dir_all(&dir).unwrap();
+        let (ep, vp) = (dir.join("e.csv"), dir.join("v.csv"));
+        write_plain(&ep, &e_txt); write_plain(&vp, &v_txt);
+        for explicit in [false, true] {
+            let (ne, nv) = if explicit { (Some(edges.len()), Some(4)) } else { (None, None) };
+            match graph_from_files(&ep, &vp, ne, nv, None) {
+                Err(_) => {}   // refused: fine
+                Ok(g) => {
+                    for (i, (s, d)) in edges.iter().enumerate() {
+                        let id = crate::model::network::EdgeId(i);
+                        let out: Vec<usize> = g.out_edges(&crate::model::network::VertexId(*s)).iter().map(|e| e.0).collect();
+                        let inn: Vec<usize> = g.in_edges(&crate::model::network::VertexId(*d)).iter().map(|e| e.0).collect();
+                        assert!(g.get_edge(&id).is_ok(), "explicit_counts={}: listed edge {} is retrievable", explicit, i);
+                        assert!(out.contains(&i), "explicit_counts={}: the load succeeded but listed edge {} ({} -> {}) is not among the out-edges of vertex {}: {:?}", explicit, i, s, d, s, out);
+                        assert!(inn.contains(&i), "explicit_counts={}: the load succeeded but listed edge {} ({} -> {}) is not among the in-edges of vertex {}: {:?} (forward and reverse views disagree)", explicit, i, s, d, d, inn);
+                    }
+                }
+            }
+        }
+        let _ = std::fs::remove_dir_all(&dir);
+    }
 }
